@@ -167,14 +167,34 @@ def apply_inner(reply, ops):
             label["why"] = "length-past-parent"
             label["tampered"] = node.name
             continue
+        if kind == "insert_after":
+            named = [(p_, n) for p_, n in nodes if n.name == op["name"] and p_]
+            if not named:
+                continue
+            path, node = named[0]
+            junk = ber.Node(0, content=b"")
+            junk.raw = bytes.fromhex(op["hex"])
+            tree.at(path[:-1]).children.insert(path[-1] + 1, junk)
+            label["wf"] = None
+            label["why"] = "junk-after-" + op["name"]
+            continue
         if kind in ("del", "dup", "swap_tag", "len", "set_content", "trunc_content", "raw"):
-            idx = op["node"] % len(nodes)
+            idx = op.get("node", 0) % len(nodes)
+            if op.get("name"):
+                named = [i for i, (_, n) in enumerate(nodes) if n.name == op["name"]]
+                if not named:
+                    continue
+                idx = named[0]
             path, node = nodes[idx]
             if kind == "len":
                 body = len(node.body())
-                node.len_override = max(0, body + op["delta"])
-                label["wf"] = False if op["delta"] != 0 else label["wf"]
-                label["why"] = "length-tampered"
+                new = max(0, body + op["delta"])
+                if new != body:
+                    node.len_override = new
+                    label["wf"] = False
+                    label["why"] = "length-tampered"
+                    label["tampered"] = node.name
+                    label["delta"] = new - body
             elif kind == "swap_tag":
                 node.tag = op["tag"]
                 label["wf"] = None
